@@ -2,7 +2,7 @@ CONF = {
     "level": "exploration",
     "technique": "property-based testing (rapid): generated lintable programs with call graphs and include graphs; oracles are totality under an isolated worker with deadline, run-to-run equality of located diagnostic multisets (5 runs, fresh Linter/Context), and a metamorphic relation: permuting subroutine declarations leaves the multiset of (rule, severity, message) unchanged",
     "level_text": "Generated programs only; termination is decided by a per-case deadline (20 s for programs of <100 lines), confirmed three times before it is reported.",
-    "campaigns": [rapid("rapid", 6000, 200000)],
+    "campaigns": [rapid("rapid", 24000, 400000)],
     "assumptions": [
         "include resolution is served by a harness resolver (in-memory modules); the file-system resolver is not exercised here",
         "messages are compared verbatim; a diagnostic whose message embeds a line number would be compared modulo nothing — none observed",
